@@ -1,6 +1,8 @@
 """C18 — incremental statistics, circular queues, prequential error match their definitions."""
 from __future__ import annotations
 
+import math
+
 import copy
 from collections import deque
 
@@ -221,6 +223,74 @@ def statistics(out: Outcome, rng, n: int) -> None:
     out.traces_validated += n
 
 
+def typed_and_long(out: Outcome, rng, thorough: bool) -> None:
+    """(a) the value TYPES detectors are fed in practice: NumPy scalars (elements of `(y_pred != y_true).astype(int)`, of a float64
+    array, NumPy booleans) must be accepted and give the same statistics as the equal Python numbers; (b) sequences of thousands of
+    values: the running statistics keep their definition when 1/t is far below any fixed step-size floor"""
+    import numpy as onp
+    casts = {"np.int64": onp.int64, "np.int32": onp.int32, "np.float64": onp.float64}   # unsigned and narrow float dtypes bring NumPy wrap-around / float32 rounding into the result: outside "every finite value sequence"
+    for tname, cast in casts.items():
+        xs = [rng.randint(0, 1) for _ in range(rng.randint(5, 60))]
+        size = rng.choice([1, 3, 7])
+        objs = {"Mean": (Mean(), Mean()), "EWMA": (EWMA(alpha=0.3), EWMA(alpha=0.3)), "CircularMean": (CircularMean(size=size), CircularMean(size=size))}
+        pe = (PrequentialError(alpha=0.9), PrequentialError(alpha=0.9))
+        for t, x in enumerate(xs, 1):
+            rep = {"values": xs[:t], "value_type": tname}
+            for name, (a, b) in objs.items():
+                try:
+                    a.update(cast(x))
+                except Exception as e:  # noqa: BLE001
+                    out.violation(f"{name}.update({tname}({x})) raises {type(e).__name__}: {e}", rep)
+                    return
+                b.update(float(x))
+                if abs(float(a.get()) - float(b.get())) > 1e-12:
+                    out.violation(f"{name}: after {t} values of type {tname} the statistic is {float(a.get())!r}, with the equal Python floats {float(b.get())!r}", rep)
+                    return
+            try:
+                va, vb = pe[0](error_value=cast(x)), pe[1](error_value=float(x))
+            except Exception as e:  # noqa: BLE001
+                out.violation(f"PrequentialError(error_value={tname}({x})) raises {type(e).__name__}: {e}", rep)
+                return
+            if abs(float(va) - float(vb)) > 1e-12:
+                out.violation(f"PrequentialError: {float(va)!r} with {tname} values, {float(vb)!r} with the equal Python floats", rep)
+                return
+        out.case({"value_type": tname, "n": len(xs)})
+    for _ in range(3 if thorough else 1):
+        n_long = rng.randint(4300, 6000)
+        xs = [rng.choice([rng.gauss(0.3, 1), float(rng.randint(0, 1))]) for _ in range(n_long)]
+        a, size = rng.choice([0.001, 0.05, 0.3]), rng.choice([3, 50, 700])
+        m, e, c = Mean(), EWMA(alpha=a), CircularMean(size=size)
+        acc, ew = 0.0, 0.0
+        lines, expect = ["x mn", f"x en {f2h(a)}", f"x cn {size}"], [None] * 3
+        for t, x in enumerate(xs, 1):
+            m.update(x); e.update(x); c.update(x)
+            acc += x
+            ew = a * x + (1 - a) * ew
+            lines += [f"x mu {f2h(x)}", f"x eu {f2h(x)}", f"x cu {f2h(x)}"]
+            expect += [("Mean", m.get(), t), ("EWMA", e.get(), t), ("CircularMean", c.get(), t)]
+            if t % 250 and t != n_long:
+                continue
+            rep = {"values_seeded": True, "n": t, "alpha": a, "size": size, "kind": "long"}
+            if abs(m.get() - math.fsum(xs[:t]) / t) > 1e-9 * 5:
+                out.violation(f"Mean: {m.get()!r} is not the arithmetic mean {math.fsum(xs[:t]) / t!r} after {t} values", rep); return
+            w = xs[max(0, t - size): t]
+            if abs(c.get() - math.fsum(w) / len(w)) > 1e-8 * 5:
+                out.violation(f"CircularMean(size={size}): {c.get()!r} is not the mean of the last {len(w)} values {math.fsum(w) / len(w)!r} after {t} values", rep); return
+            if abs(e.get() - ew) > 1e-9 * 5:
+                out.violation(f"EWMA(alpha={a}): {e.get()!r} differs from the exponentially weighted sum {ew!r} after {t} values", rep); return
+        res = run_driver(lines)
+        for got, exp in zip(res, expect):
+            if exp is None:
+                continue
+            name, val, t = exp
+            gv = h2f(got.split(" ")[0][1:])
+            if not close(gv, float(val), 1e-8 * 5):
+                out.mismatch(f"{name}: model value {gv!r} differs from implementation {float(val)!r} after {t} values", {"n": t, "kind": "long"})
+                break
+        out.traces_validated += 1
+        out.case({"long": n_long, "alpha": a, "size": size})
+
+
 def run(out: Outcome) -> None:
     rng = rng_for(out.seed, "C18")
     thorough = out.tier == "thorough"
@@ -232,6 +302,7 @@ def run(out: Outcome) -> None:
     bfs(out, 0, False, limit=50) if False else None
     random_histories(out, rng, 400 if thorough else 80)
     statistics(out, rng, 200 if thorough else 40)
+    typed_and_long(out, rng, thorough)
 
 
 def replay(out: Outcome, payload: dict) -> None:
